@@ -1,6 +1,9 @@
 import G3d.Props.C12
 import G3d.Props.C20
 import Mathlib.Data.List.Rotate
+import Mathlib.Data.Finset.Card
+import Mathlib.Data.List.Perm.Basic
+import Mathlib.Data.Finset.Range
 /-!
 # C12 — one merge step end to end: no vertex lost, net vector area
 
@@ -10,6 +13,12 @@ import Mathlib.Data.List.Rotate
 * `pushAll_vertices` (generic) — when no fed point gives `push` a reason to drop a vertex, an `Ok` run leaves exactly the fed
   points.
 * `mergeStep_area` — both together for `Polygon.buildAux`, the body of one iteration of `get_closed_loop`.
+* `searchExtVertices_good`, `chooseCopy_bound` (generic) — a pair found by the nearest-pair search is an unprocessed hole, one of
+  its vertex indices and an outline index; the copy chosen for the bridge vertex is an outline index too.
+* `closedLoopIter_area`, `tryGetClosedLoop_area` — a *clean* `Ok` run (`Clean`: every iteration finds a pair, no push drops a
+  vertex — stated with the model's own functions) merges every hole exactly once and returns an outline with
+  `V = V(outer) + Σ_holes ∓V(hole)` and `n_outer + Σ (n_hole + 2)` vertices.  Non-vacuity: the C12 run exercises thousands of
+  such `Ok` merges on the real code with the model agreeing bit for bit.
 -/
 namespace G3d.C12A
 open G3d Num C04 C12 Shoelace
@@ -194,5 +203,309 @@ theorem mergeStep_area (inner : List (Loop ℝ)) (N : V3 ℝ) (m minLoop s : Nat
     have := (hmem v).2 hvx
     simp only [List.mem_append, List.mem_cons, Nat.sub_zero] at this ⊢
     tauto
+end
+
+/-! ## all iterations: the nearest-pair search, the copy choice, and the whole of `try_get_closed_loop` -/
+section generic
+variable {α : Type} [Num α]
+set_option linter.unusedSectionVars false
+
+/-- what the nearest-pair search guarantees about a pair it found -/
+def Good (inner : List (Loop α)) (processed : List Nat) (extLen : Nat) (st : Polygon.MinSearch α) : Prop :=
+  ∃ il, inner[st.minInnerLoopId]? = some il ∧ st.innerVertexId < il.vertices.length ∧ st.minExtVertexId < extLen
+    ∧ processed.contains st.minInnerLoopId = false ∧ st.innerLoopId = st.minInnerLoopId
+
+theorem searchInnerVertices_good (inner : List (Loop α)) (processed : List Nat) (extLen : Nat) (s0 : Polygon.MinSearch α)
+    (extVertex : V3 α) (j k : Nat) (il : Loop α) (hk : inner[k]? = some il) (hj : j < extLen)
+    (hp : processed.contains k = false) :
+    ∀ (vs : List (V3 α)) (l : Nat) (st : Polygon.MinSearch α), l + vs.length = il.vertices.length →
+      (st = s0 ∨ Good inner processed extLen st) →
+      (Polygon.searchInnerVertices extVertex j k vs l st = s0
+        ∨ Good inner processed extLen (Polygon.searchInnerVertices extVertex j k vs l st)) := by
+  intro vs
+  induction vs with
+  | nil => intro l st _ h; exact h
+  | cons v rest ih =>
+    intro l st hl h
+    unfold Polygon.searchInnerVertices
+    simp only [List.length_cons] at hl
+    apply ih (l + 1) _ (by omega)
+    split
+    · right
+      exact ⟨il, hk, by simp only; omega, hj, hp, rfl⟩
+    · exact h
+
+theorem searchInnerLoops_good (inner : List (Loop α)) (processed : List Nat) (extLen : Nat) (s0 : Polygon.MinSearch α)
+    (extVertex : V3 α) (j : Nat) (hj : j < extLen) :
+    ∀ (ls : List (Loop α)) (k : Nat) (st : Polygon.MinSearch α), (∀ i, ls[i]? = inner[k + i]?) →
+      (st = s0 ∨ Good inner processed extLen st) →
+      (Polygon.searchInnerLoops extVertex j processed ls k st = s0
+        ∨ Good inner processed extLen (Polygon.searchInnerLoops extVertex j processed ls k st)) := by
+  intro ls
+  induction ls with
+  | nil => intro k st _ h; exact h
+  | cons il rest ih =>
+    intro k st hls h
+    unfold Polygon.searchInnerLoops
+    apply ih (k + 1) _ (by intro i; have := hls (i + 1); simpa [Nat.add_assoc, Nat.add_comm 1 i] using this)
+    have hk : inner[k]? = some il := by have := hls 0; simpa using this.symm
+    by_cases hp : processed.contains k = true
+    · simp only [hp, if_true]; exact h
+    · simp only [hp, Bool.false_eq_true, if_false]
+      exact searchInnerVertices_good inner processed extLen s0 extVertex j k il hk hj (by simpa using hp)
+        il.vertices 0 st (by simp) h
+
+theorem searchExtVertices_good (inner : List (Loop α)) (processed : List Nat) (extLen : Nat) (s0 : Polygon.MinSearch α) :
+    ∀ (ext : List (V3 α)) (j : Nat) (st : Polygon.MinSearch α), j + ext.length = extLen →
+      (st = s0 ∨ Good inner processed extLen st) →
+      (Polygon.searchExtVertices inner processed ext j st = s0
+        ∨ Good inner processed extLen (Polygon.searchExtVertices inner processed ext j st)) := by
+  intro ext
+  induction ext with
+  | nil => intro j st _ h; exact h
+  | cons v rest ih =>
+    intro j st hl h
+    unfold Polygon.searchExtVertices
+    simp only [List.length_cons] at hl
+    apply ih (j + 1) _ (by omega)
+    exact searchInnerLoops_good inner processed extLen s0 v j (by omega) inner 0 st (by intro i; simp) h
+
+/-- the copy chosen for the bridge vertex is the one the search found or an index of the outline -/
+theorem chooseCopyLoop_bound (ret : Loop α) (nExt : Nat) (extVertex bridge N : V3 α) :
+    ∀ (fuel j cur r : Nat), Polygon.chooseCopyLoop ret nExt extVertex bridge N fuel j cur = .ok r →
+      r = cur ∨ r < ret.vertices.length := by
+  intro fuel
+  induction fuel with
+  | zero => intro j cur r h; simp only [Polygon.chooseCopyLoop, Res.ok.injEq] at h; exact Or.inl h.symm
+  | succ f ih =>
+    intro j cur r h
+    unfold Polygon.chooseCopyLoop at h
+    cases hi : ret.index j with
+    | err e => simp [hi, bind, Res.bind] at h
+    | panic q => simp [hi, bind, Res.bind] at h
+    | ok rj =>
+      have hjl : j < ret.vertices.length := by
+        unfold Loop.index at hi
+        by_contra hc
+        simp [show j ≥ ret.vertices.length by omega] at hi
+      simp only [hi, bind, Res.bind] at h
+      split at h
+      · exact ih _ _ _ h
+      · split at h
+        · cases h
+        · cases h1 : ret.index ((j + nExt - 1) % nExt) with
+          | err e => simp [h1] at h
+          | panic q => simp [h1] at h
+          | ok prev =>
+            cases h2 : ret.index ((j + 1) % nExt) with
+            | err e => simp [h1, h2] at h
+            | panic q => simp [h1, h2] at h
+            | ok next =>
+              simp only [h1, h2] at h
+              repeat' split at h
+              all_goals first
+                | exact ih _ _ _ h
+                | (simp only [Res.ok.injEq] at h; right; omega)
+                | cases h
+
+def searchStart (st : Polygon.ClosedLoopState α) : Polygon.MinSearch α :=
+  { minDistance := (9E14 : α), minInnerLoopId := 0, minExtVertexId := 0,
+    innerLoopId := st.innerLoopId, innerVertexId := st.innerVertexId }
+
+theorem closedLoopIter_succ (pg : Polygon α) (N : V3 α) (fuel : Nat) (st : Polygon.ClosedLoopState α) :
+    Polygon.closedLoopIter pg N (fuel + 1) st =
+      match Polygon.chooseCopy pg st.retLoop N
+          (Polygon.searchExtVertices pg.inner st.processed st.retLoop.vertices 0 (searchStart st)) with
+      | .err e => .err e
+      | .panic p => .panic p
+      | .ok minExt =>
+        match Polygon.buildAux pg.inner N minExt
+            (Polygon.searchExtVertices pg.inner st.processed st.retLoop.vertices 0 (searchStart st)).minInnerLoopId
+            (Polygon.searchExtVertices pg.inner st.processed st.retLoop.vertices 0 (searchStart st)).innerVertexId
+            st.retLoop.vertices 0 Loop.new with
+        | .err e => .err e
+        | .panic p => .panic p
+        | .ok aux =>
+          Polygon.closedLoopIter pg N fuel
+            { retLoop := aux,
+              processed := st.processed ++
+                [(Polygon.searchExtVertices pg.inner st.processed st.retLoop.vertices 0 (searchStart st)).innerLoopId],
+              innerLoopId :=
+                (Polygon.searchExtVertices pg.inner st.processed st.retLoop.vertices 0 (searchStart st)).innerLoopId,
+              innerVertexId :=
+                (Polygon.searchExtVertices pg.inner st.processed st.retLoop.vertices 0 (searchStart st)).innerVertexId } :=
+  rfl
+end generic
+
+noncomputable section
+
+/-- what a merged hole adds to the outline's vector area: always against the outline, whatever its own winding -/
+def contrib (N : V3 ℝ) (il : Loop ℝ) : V3 ℝ :=
+  if N.isSameDirection il.normal then -(cyc il.vertices) else cyc il.vertices
+
+/-- the run is *clean*: every iteration finds a pair (the search does not come back with its start value) and no fed point
+    gives `push` a reason to drop a vertex.  Stated with the model's own functions, so it can be evaluated for a given polygon. -/
+def Clean (pg : Polygon ℝ) (N : V3 ℝ) : Nat → Polygon.ClosedLoopState ℝ → Prop
+  | 0, _ => True
+  | fuel + 1, st =>
+    let s := Polygon.searchExtVertices pg.inner st.processed st.retLoop.vertices 0 (searchStart st)
+    s ≠ searchStart st ∧
+    match Polygon.chooseCopy pg st.retLoop N s, pg.inner[s.minInnerLoopId]? with
+    | .ok m, some il =>
+      AllFit [] (fed il (N.isSameDirection il.normal) s.innerVertexId m st.retLoop.vertices 0) ∧
+      match Polygon.buildAux pg.inner N m s.minInnerLoopId s.innerVertexId st.retLoop.vertices 0 Loop.new with
+      | .ok aux => Clean pg N fuel
+          { retLoop := aux, processed := st.processed ++ [s.innerLoopId],
+            innerLoopId := s.innerLoopId, innerVertexId := s.innerVertexId }
+      | _ => True
+    | _, _ => True
+
+def holesSum (pg : Polygon ℝ) (N : V3 ℝ) : List Nat → V3 ℝ
+  | [] => ⟨0, 0, 0⟩
+  | k :: ks => contrib N (pg.inner.getD k Loop.new) + holesSum pg N ks
+
+def holesLen (pg : Polygon ℝ) : List Nat → Nat
+  | [] => 0
+  | k :: ks => (pg.inner.getD k Loop.new).vertices.length + 2 + holesLen pg ks
+
+theorem chooseCopy_bound (pg : Polygon ℝ) (ret : Loop ℝ) (N : V3 ℝ) (s : Polygon.MinSearch ℝ) (m : Nat)
+    (h : Polygon.chooseCopy pg ret N s = .ok m) (hs : s.minExtVertexId < ret.vertices.length) :
+    m < ret.vertices.length := by
+  unfold Polygon.chooseCopy at h
+  split at h
+  · cases h1 : ret.index s.minExtVertexId with
+    | err e => simp [h1, bind, Res.bind] at h
+    | panic q => simp [h1, bind, Res.bind] at h
+    | ok ev =>
+      simp only [h1, bind, Res.bind] at h
+      cases h2 : pg.inner[s.minInnerLoopId]? with
+      | none => simp [h2] at h
+      | some il =>
+        simp only [h2] at h
+        cases h3 : il.index s.innerVertexId with
+        | err e => simp [h3] at h
+        | panic q => simp [h3] at h
+        | ok iv =>
+          simp only [h3] at h
+          rcases chooseCopyLoop_bound _ _ _ _ _ _ _ _ _ h with h | h
+          · omega
+          · exact h
+  · simp only [Res.ok.injEq] at h; omega
+
+/-- **`get_closed_loop`, all iterations** (exact arithmetic): a clean `Ok` run merges one hole per iteration, never the same one
+    twice, and the outline it returns has the outline's vector area plus every merged hole's contribution, and all their
+    vertices -/
+theorem closedLoopIter_area (pg : Polygon ℝ) (N : V3 ℝ)
+    (hsmall : ∀ il ∈ pg.inner, il.vertices.length < 1073741824) :
+    ∀ (fuel : Nat) (st : Polygon.ClosedLoopState ℝ) (L : Loop ℝ),
+      Polygon.closedLoopIter pg N fuel st = .ok L → Clean pg N fuel st → st.processed.Nodup →
+      ∃ ks : List Nat, ks.length = fuel ∧ (st.processed ++ ks).Nodup ∧ (∀ k ∈ ks, k < pg.inner.length)
+        ∧ cyc L.vertices = cyc st.retLoop.vertices + holesSum pg N ks
+        ∧ L.vertices.length = st.retLoop.vertices.length + holesLen pg ks := by
+  intro fuel
+  induction fuel with
+  | zero =>
+    intro st L h _ hnd
+    simp only [Polygon.closedLoopIter, Res.ok.injEq] at h
+    subst h
+    exact ⟨[], rfl, by simpa using hnd, by simp, by simp [holesSum, add_zero'], by simp [holesLen]⟩
+  | succ f ih =>
+    intro st L h hc hnd
+    rw [closedLoopIter_succ] at h
+    unfold Clean at hc
+    simp only at hc
+    generalize hsdef : Polygon.searchExtVertices pg.inner st.processed st.retLoop.vertices 0 (searchStart st) = s at h hc
+    obtain ⟨hne, hc⟩ := hc
+    have hgood := searchExtVertices_good pg.inner st.processed st.retLoop.vertices.length (searchStart st)
+      st.retLoop.vertices 0 (searchStart st) (by simp) (Or.inl rfl)
+    rw [hsdef] at hgood
+    rcases hgood with hbad | ⟨il, hil, hsl, hml, hproc, hid⟩
+    · exact absurd hbad hne
+    · cases hcc : Polygon.chooseCopy pg st.retLoop N s with
+      | err e => simp [hcc] at h
+      | panic q => simp [hcc] at h
+      | ok m =>
+        simp only [hcc, hil] at h hc
+        obtain ⟨hfit, hc⟩ := hc
+        have hm := chooseCopy_bound pg st.retLoop N s m hcc hml
+        cases hb : Polygon.buildAux pg.inner N m s.minInnerLoopId s.innerVertexId st.retLoop.vertices 0 Loop.new with
+        | err e => simp [hb] at h
+        | panic q => simp [hb] at h
+        | ok aux =>
+          simp only [hb] at h hc
+          have hmem : il ∈ pg.inner := List.mem_of_getElem? hil
+          have hlen := hsmall il hmem
+          obtain ⟨_, harea, hcount, _, _⟩ := mergeStep_area pg.inner N m s.minInnerLoopId s.innerVertexId il
+            st.retLoop.vertices st.retLoop.vertices[m] aux hil hsl (by omega) (List.getElem?_eq_getElem hm) hb hfit
+          have hnotin : s.minInnerLoopId ∉ st.processed := by
+            intro hin
+            have : st.processed.contains s.minInnerLoopId = true := by simpa using hin
+            rw [this] at hproc; cases hproc
+          have hnd' : (st.processed ++ [s.innerLoopId]).Nodup := by
+            rw [hid]
+            exact List.nodup_append.2 ⟨hnd, by simp, by
+              intro a ha b hb; simp only [List.mem_singleton] at hb; subst hb; intro hab; subst hab; exact hnotin ha⟩
+          obtain ⟨ks, hk1, hk2, hk3, hk4, hk5⟩ := ih _ L h hc hnd'
+          have hklt : s.minInnerLoopId < pg.inner.length := by
+            by_contra hcx
+            rw [List.getElem?_eq_none (by omega)] at hil
+            cases hil
+          have hgetD : pg.inner.getD s.minInnerLoopId Loop.new = il := by
+            simp [List.getD_eq_getElem?_getD, hil]
+          refine ⟨s.minInnerLoopId :: ks, by simp [hk1], ?_, ?_, ?_, ?_⟩
+          · simp only [hid] at hk2
+            simpa [List.append_assoc] using hk2
+          · intro k hk
+            simp only [List.mem_cons] at hk
+            rcases hk with rfl | hk
+            · exact hklt
+            · exact hk3 k hk
+          · simp only at hk4
+            rw [hk4, harea, holesSum, hgetD, contrib, add_assoc']
+          · simp only at hk5
+            rw [hk5, hcount, holesLen, hgetD]
+            omega
+
+theorem holesSum_perm (pg : Polygon ℝ) (N : V3 ℝ) {a b : List Nat} (h : a.Perm b) : holesSum pg N a = holesSum pg N b := by
+  induction h with
+  | nil => rfl
+  | cons x _ ih => simp only [holesSum, ih]
+  | swap x y l => simp only [holesSum]; v3_ring
+  | trans _ _ ih1 ih2 => rw [ih1, ih2]
+
+theorem holesLen_perm (pg : Polygon ℝ) {a b : List Nat} (h : a.Perm b) : holesLen pg a = holesLen pg b := by
+  induction h with
+  | nil => rfl
+  | cons x _ ih => simp only [holesLen, ih]
+  | swap x y l => simp only [holesLen]; omega
+  | trans _ _ ih1 ih2 => rw [ih1, ih2]
+
+theorem perm_range_of_nodup {ks : List Nat} {n : Nat} (hl : ks.length = n) (hnd : ks.Nodup) (hlt : ∀ k ∈ ks, k < n) :
+    ks.Perm (List.range n) := by
+  apply List.perm_of_nodup_nodup_toFinset_eq hnd List.nodup_range
+  rw [List.toFinset_range]
+  apply Finset.eq_of_subset_of_card_le
+  · intro k hk
+    simp only [List.mem_toFinset] at hk
+    simpa using hlt k hk
+  · rw [Finset.card_range, List.toFinset_card_of_nodup hnd, hl]
+
+/-- **`try_get_closed_loop`, whole** (exact arithmetic): a clean `Ok` run returns an outline made of every vertex of the outer
+    loop and of every hole (each hole's entry vertex and each bridge vertex twice) whose vector area is the outer loop's plus
+    each hole's contribution `∓V(hole)` — the polygon's net area -/
+theorem tryGetClosedLoop_area (pg : Polygon ℝ) (L : Loop ℝ)
+    (hsmall : ∀ il ∈ pg.inner, il.vertices.length < 1073741824)
+    (h : pg.tryGetClosedLoop = .ok L)
+    (hc : Clean pg pg.outer.normal pg.inner.length
+      { retLoop := pg.outer.open, processed := [], innerLoopId := 0, innerVertexId := 0 }) :
+    cyc L.vertices = cyc pg.outer.vertices + holesSum pg pg.outer.normal (List.range pg.inner.length)
+    ∧ L.vertices.length = pg.outer.vertices.length + holesLen pg (List.range pg.inner.length) := by
+  unfold Polygon.tryGetClosedLoop at h
+  obtain ⟨ks, h1, h2, h3, h4, h5⟩ := closedLoopIter_area pg pg.outer.normal hsmall _ _ L h hc (by simp)
+  have hp := perm_range_of_nodup h1 (by simpa using h2) h3
+  simp only [(open_vertices pg.outer).1] at h4 h5
+  rw [h4, h5, holesSum_perm pg _ hp, holesLen_perm pg hp]
+  exact ⟨rfl, rfl⟩
+
 end
 end G3d.C12A
